@@ -118,13 +118,17 @@ CLAIMED = {
         text="Lean theorems about the reference front end: it is total (a tree or an error value for every file system, root and fuel); a syntax "
              "error is an error value citing its file; and C11_error_lines: every line it cites for a lexical or syntax error lies between 1 and "
              "the number of lines of the source - the lexer's bookkeeping (lex_lines) composed with a safety invariant carried through every "
-             "production of the parser (SyntaxLines.lean). That no exception escapes the REAL parser and that every error renders with existing "
-             "cited lines is checked by the harness on random text, every kind of prefix, token-level mutations, out-of-domain literals and "
-             "errors of every stage placed deep inside imported modules.",
+             "production of the parser (SyntaxLines.lean). Rendering is modelled too (Render.lean = Logger.error / log_node / log_location): "
+             "C11_render_iff - an error value can be rendered exactly when every citation resolves (source registered under its full path or "
+             "base name, line not beyond the last line); C11_quoted_line - the line printed under a citation is that line of that source; "
+             "C11_syntax_error_renders - the lexical and syntax errors of the reference front end always render. That no exception escapes the "
+             "REAL parser, that every error renders with existing cited lines, and that each rendered diagnostic (colour codes and "
+             "[x.py:n] entries stripped) equals the model's text is checked by the harness on random text, every kind of prefix, token-level "
+             "mutations, out-of-domain literals, line-ending conventions and errors of every stage placed deep inside imported modules.",
         note="Partial in one respect: exception propagation (Lark VisitError, beartype, assert) is CPython behaviour a model cannot exhibit; "
              "lines cited by errors of the transformer stage (semantic errors) are token lines by construction of the model but not separately "
              "stated as a theorem.",
-        technique="Lean 4 proof (totality, cited-line bounds for lexer and parser) + malformed-input streams against the real parser",
+        technique="Lean 4 proof (totality, cited-line bounds for lexer and parser, rendering model of Logger.error) + malformed-input streams and rendered-text correspondence against the real parser",
         ref="DESIGN.md section 8, C11"),
     "C20": dict(
         text="Lean theorems about the reference module loader. C20_split_general: a file may import any number of modules at any positions between "
